@@ -219,7 +219,10 @@ func c14Receiver(rc *RunCtx) *Violation {
 			return
 		}
 		justCompleted = r.Plain != nil && refotr.IsFragment(r.In)
-		if r.Plain != nil {
+		if r.Plain != nil && !r.HasEvent("msg", "ReceivedMessageUnencrypted") {
+			// (what arrives in clear - here: pieces the attacker relabelled until they "reassemble" to
+			// something that is not an OTR message - is shown to the user flagged as unencrypted, as
+			// often as the attacker likes; exactly-once is about the peer's encrypted messages)
 			counts[string(r.Plain)]++
 			if counts[string(r.Plain)] > 1 {
 				viol = rc.Viol("processed.twice", fmt.Sprintf("B returned the text %s twice", short(r.Plain)), nil)
